@@ -355,9 +355,7 @@ breaker('C13', 'fs-finish-keeps-dirty-list', 'C13.R1', FSPY,
 ''', '')
 breaker('C13', 'blobstorage-abort-no-cleanup', 'C13.R1', BLOBPY,
         'BlobStorage.tpc_abort',
-        '''        if ours:
-            self._blob_tpc_abort()''', '''        if ours:
-            pass''')
+        '''            self._blob_remove_files(dirty_oids)''', '''            pass''')
 breaker('C13', 'storeblob-file-before-record', 'C13.R2', BLOBPY,
         'BlobStorageMixin.storeBlob',
         '''        self.store(oid, oldserial, data, '', transaction)
@@ -1634,3 +1632,167 @@ breaker('C12', 'commit-savepoint-creating-late', 'C12.R9', CONNPY,
 twin('C12', 'loadblob-membership-via-get', CONNPY, 'TmpStore.loadBlob',
      '''        if oid not in self.index:''',
      '''        if not (oid in self.index):''')
+
+# ------------------------------------------- rules added after seeded round 1
+breaker('C13', 'blobstorage-abort-cleanup-after-release', 'C13.R9', BLOBPY,
+        'BlobStorage.tpc_abort',
+        '''            dirty_oids, self.dirty_oids = self.dirty_oids, []
+            self.__storage.tpc_abort(transaction, *arg, **kw)
+            self._blob_remove_files(dirty_oids)''',
+        '''            self.__storage.tpc_abort(transaction, *arg, **kw)
+            self._blob_tpc_abort()''')
+breaker('C13', 'blobstorage-finish-forget-after-release', 'C13.R9', BLOBPY,
+        'BlobStorage.tpc_finish',
+        '''        if self._blob_is_committing(transaction):
+            self.dirty_oids = []  # the files are committed with the records
+        return self.__storage.tpc_finish(transaction, *arg, **kw)''',
+        '''        tid = self.__storage.tpc_finish(transaction, *arg, **kw)
+        self.dirty_oids = []
+        return tid''')
+breaker('C13', 'packer-dup-test-only-for-pickles', 'C13.R8', PACKPY,
+        'FileStoragePacker.copyDataRecords',
+        '''                        rpos = self.gc.reachable.get(h.oid)
+                        is_dup = (
+                            rpos and self._read_data_header(rpos).tid == h.tid)''',
+        '''                        is_dup = False
+                        if h.plen:
+                            rpos = self.gc.reachable.get(h.oid)
+                            is_dup = (rpos and
+                                      self._read_data_header(rpos).tid == h.tid)''')
+breaker('C01', 'scan-checkpoint-test-conditional', 'C01.R6', FSPY, 'read_index',
+        "if pos + (tl + 8) > file_size or status == 'c':",
+        "if pos + (tl + 8) > file_size or (status == 'c' and tl > 0 and not read_only):")
+breaker('C01', 'vote-cleanup-except-exception', 'C01.R4', FSPY,
+        'FileStorage.tpc_vote',
+        "            except:  # noqa: E722 do not use bare 'except'\n                # Hm, an error occurred writing out the data. Maybe the",
+        "            except Exception:\n                # Hm, an error occurred writing out the data. Maybe the")
+breaker('C03', 'readcurrent-skips-dirty', 'C03.R8', CONNPY,
+        'Connection.readCurrent',
+        '''        if ob._p_serial != z64:''', '''        if ob._p_changed:
+            return
+        if ob._p_serial != z64:''')
+breaker('C05', 'ms-begin-keeps-staging', 'C05.R4', MSPY,
+        'MappingStorage.tpc_begin',
+        '''            self._tdata = {}
+''', '''            self._tdata = getattr(self, '_tdata', {})
+''')
+breaker('C05', 'fs-clear-temp-shortcut', 'C05.R4', FSPY,
+        'FileStorage._clear_temp',
+        '''        self._tindex.clear()''', '''        if not self._tindex:
+            return
+        self._tindex.clear()''')
+breaker('C05', 'bs-begin-reads-metadata-first', 'C05.R1', BSPY,
+        'BaseStorage.tpc_begin',
+        '''            self._transaction = transaction
+            self._clear_temp()
+
+            user = transaction.user
+            desc = transaction.description
+            ext = transaction.extension_bytes
+''', '''            user = transaction.user
+            desc = transaction.description
+            ext = transaction.extension_bytes
+
+            self._transaction = transaction
+            self._clear_temp()
+''')
+breaker('C08', 'copyrest-stale-end-position', 'C08.R6', PACKPY,
+        'FileStoragePacker.copyRest',
+        '''        try:
+            while 1:
+                ipos = self.copyOne(ipos)
+        except CorruptedDataError as err:
+            # The last call to copyOne() will raise
+            # CorruptedDataError, because it will attempt to read past
+            # the end of the file.  Double-check that the exception
+            # occurred for this reason.
+            self._file.seek(0, 2)
+            endpos = self._file.tell()
+            if endpos != err.pos:
+                raise''', '''        while ipos < self.file_end:
+            ipos = self.copyOne(ipos)''')
+breaker('C08', 'swap-pool-emptied-in-own-section', 'C08.R7', FSPY,
+        'FileStorage.pack',
+        '''            with self._files.write_lock():
+                with self._lock:
+                    self._files.empty()
+                    self._file.close()''', '''            self._files.flush()
+            with self._files.write_lock():
+                with self._lock:
+                    self._file.close()''')
+breaker('C08', 'swap-fallible-step-after-close', 'C08.R7', FSPY,
+        'FileStorage.pack',
+        '''                    self._file.close()
+                    try:
+                        os.rename(self._file_name, oldpath)''',
+        '''                    self._file.close()
+                    if os.path.exists(oldpath + '.bak'):
+                        os.remove(oldpath + '.bak')
+                    try:
+                        os.rename(self._file_name, oldpath)''')
+breaker('C09', 'check-sanity-ltid-every-pass', 'C09.R6', FSPY,
+        'FileStorage._check_sanity',
+        '''            if not ltid:
+                ltid = h.tid''', '''            ltid = h.tid''')
+breaker('C19', 'load-eof-is-end', 'C19.R5', FSIPY, 'fsIndex.load',
+        '''                v = unpickler.load()
+                if not v:
+                    break''', '''                try:
+                    v = unpickler.load()
+                except EOFError:
+                    break
+                if not v:
+                    break''')
+breaker('C11', 'register-flag-before-join', 'C11.R7', CONNPY,
+        'Connection._register',
+        '''            self.transaction_manager.get().join(self)
+            self._needs_to_join = False''',
+        '''            self._needs_to_join = False
+            self.transaction_manager.get().join(self)''')
+breaker('C11', 'store-objects-pickle-first', 'C11.R1', CONNPY,
+        'Connection._store_objects_of',
+        '''            serial = getattr(obj, "_p_serial", z64)
+
+            if ((serial == z64)''', '''            serial = getattr(obj, "_p_serial", z64)
+            p = writer.serialize(obj)
+
+            if ((serial == z64)''')
+breaker('C20', 'set-max-oid-check-outside-lock', 'C20.R1', BSPY,
+        'BaseStorage.set_max_oid',
+        '''        with self._lock:
+            if possible_new_max_oid > self._oid:
+                self._oid = possible_new_max_oid''',
+        '''        if possible_new_max_oid > self._oid:
+            with self._lock:
+                self._oid = possible_new_max_oid''')
+breaker('C20', 'ds-abort-forgets-issued', 'C20.R4', DSPY, 'DemoStorage.tpc_abort',
+        '''            self._stored_oids = set()
+            self._transaction = None
+            self.changes.tpc_abort(transaction)''',
+        '''            self._issued_oids.difference_update(self._stored_oids)
+            self._stored_oids = set()
+            self._transaction = None
+            self.changes.tpc_abort(transaction)''')
+breaker('C04', 'begin-tid-from-unsanitized', 'C04.R1', BSPY,
+        'BaseStorage.tpc_begin',
+        'self._ts = t = t.laterThan(self._ts)', 'self._ts = t.laterThan(self._ts)')
+twin('C13', 'blobstorage-abort-else-first', BLOBPY, 'BlobStorage.tpc_abort',
+     '''        if self._blob_is_committing(transaction):
+            dirty_oids, self.dirty_oids = self.dirty_oids, []
+            self.__storage.tpc_abort(transaction, *arg, **kw)
+            self._blob_remove_files(dirty_oids)
+        else:
+            self.__storage.tpc_abort(transaction, *arg, **kw)''',
+     '''        if not self._blob_is_committing(transaction):
+            self.__storage.tpc_abort(transaction, *arg, **kw)
+            return
+        dirty_oids, self.dirty_oids = self.dirty_oids, []
+        self.__storage.tpc_abort(transaction, *arg, **kw)
+        self._blob_remove_files(dirty_oids)''')
+twin('C09', 'check-sanity-guard-is-none', FSPY, 'FileStorage._check_sanity',
+     '''            if not ltid:
+                ltid = h.tid''', '''            if ltid is None:
+                ltid = h.tid''')
+twin('C01', 'scan-status-not-equal-form', FSPY, 'read_index',
+     "if pos + (tl + 8) > file_size or status == 'c':",
+     "if not (pos + (tl + 8) <= file_size and status != 'c'):")
